@@ -1008,6 +1008,71 @@ theorem c11_scan_all_converged_counterexample : ¬ c11_scan_all_converged_statem
   rw [hrf] at this
   exact absurd this (by decide)
 
+/-! ## the cached function-with-gradients functor and its life time -/
+
+section functor_theorems
+variable {F : Type} [BEq F] [LawfulBEq F]
+
+namespace C11
+/-- cache invariant: what is cached is the function at the cached point -/
+def FunctorInv (func : List F → F × List F) (s : FunctorState F) : Prop :=
+  ∀ cx cf cg, s.cache = some (cx, cf, cg) → (cf, cg) = func cx
+
+theorem functorStep_spec (func : List F → F × List F) (s : FunctorState F) (x : List F)
+    (hinv : FunctorInv func s) :
+    (functorStep func s x).2 = func x ∧ FunctorInv func (functorStep func s x).1 := by
+  unfold functorStep
+  cases hc : s.cache with
+  | none =>
+    refine ⟨rfl, ?_⟩
+    intro cx cf cg h
+    simp only [Option.some.injEq, Prod.mk.injEq] at h
+    obtain ⟨rfl, rfl, rfl⟩ := h
+    rfl
+  | some c =>
+    obtain ⟨cx, cf, cg⟩ := c
+    simp only
+    split_ifs with hx
+    · have : x = cx := by simpa using hx
+      exact ⟨by rw [this]; exact hinv cx cf cg hc, hinv⟩
+    · refine ⟨rfl, ?_⟩
+      intro cx' cf' cg' h
+      simp only [Option.some.injEq, Prod.mk.injEq] at h
+      obtain ⟨rfl, rfl, rfl⟩ := h
+      rfl
+
+theorem functorRun_spec (func : List F → F × List F) : ∀ (xs : List (List F)) (s : FunctorState F),
+    FunctorInv func s → (functorRun func s xs).1 = xs.map func := by
+  intro xs
+  induction xs with
+  | nil => intro s _; rfl
+  | cons x xs ih =>
+    intro s hinv
+    obtain ⟨h1, h2⟩ := functorStep_spec func s x hinv
+    simp only [functorRun, List.map_cons, h1, ih _ h2]
+end C11
+
+/-- **the cached functor is transparent**: whatever sequence of `get_f` / `get_grads` calls is made on one
+functor, every call returns the wrapped function's value / gradients at the point asked for. -/
+theorem c11_functor_refines (func : List F → F × List F) (xs : List (List F)) :
+    (functorRun func FunctorState.empty xs).1 = xs.map func :=
+  C11.functorRun_spec func xs _ (by intro cx cf cg h; simp [FunctorState.empty] at h)
+
+/-- **no state survives a `minimize` call**: on one implementation object used for several minimisations,
+the optimiser of call `i` sees the objective of call `i` (its function *with its own arguments*), whatever
+was minimised before — in particular also when the same function object comes with new arguments. -/
+theorem c11_functor_calls_independent (calls : List ((List F → F × List F) × List (List F))) :
+    functorCalls calls = calls.map (fun c => c.2.map c.1) := by
+  unfold functorCalls
+  apply List.map_congr_left
+  intro c _
+  exact c11_functor_refines c.1 c.2
+
+example : functorCalls [((fun x : List ℤ => (x.sum, x)), [[1, 2], [1, 2], [3]]), ((fun x => (2 * x.sum, x)), [[1, 2]])] =
+    [[(3, [1, 2]), (3, [1, 2]), (3, [3])], [(6, [1, 2])]] := by decide
+
+end functor_theorems
+
 /-! ## COBYLA: bounds as inequality constraints -/
 
 section cobyla
